@@ -15,7 +15,7 @@
 From Coq Require Import List ZArith Bool Arith Reals.
 Import ListNotations.
 From FV.C10.gen Require Import FaceTables.
-From FV.C10 Require Import Model Groups ProofsTables ProofsGeom ProofsSurface ProofsClosed ProofsViews.
+From FV.C10 Require Import Model Groups ProofsTables ProofsGeom ProofsSurface ProofsClosed ProofsViews ProofsFistr.
 
 (* every translated face table (tet, tet2, pyr, prism, hex; hexprism too) is
    closed: each directed edge occurs once and its reverse once; indices are in
@@ -105,14 +105,26 @@ Theorem C10_obj_roundtrip :
          o_polygon := [] |}.
 Proof. intros C. exact (@obj_roundtrip C). Qed.
 
-(* (element id, face number) view for tetrahedra.
-   Full statement:  for a well-formed tet/tet2 mesh, (i, n) is a row of
-   surface_fistr m  <->  element i exists and its face number n (node set of
-   the n-th row of the tet table) is a surface face.
-   Proved part: the face-number table of extract_surface_fistr lists, at
-   position n, the node set of the n-th face of the tet table, numbers 1..4.
-   The lifting to meshes is covered by the correspondence check only. *)
-Theorem C10_fistr_view_partial :
+(* (element id, face number) view for tetrahedra (tet / tet2 meshes): (i, n)
+   is returned exactly when element i exists and its face number n (columns
+   of the translated face-number table) has the node set of a surface face *)
+Theorem C10_fistr_view :
+  forall m, tets_only m = true -> wf_mesh m = true ->
+  forall i n, In (i, n) (surface_fistr m) <->
+    exists t c nf, In (t, i, c) (elems m) /\ In nf tbl_fistr /\ n = Z.of_nat (fst nf)
+                   /\ exists f, In f (surface_sorted m) /\ key f = sortZ (pick c (snd nf)).
+Proof.
+  intros m Ht Hwf i n. rewrite (fistr_view m Ht Hwf). split.
+  - intros [t [c [nf [H1 [H2 [H3 H4]]]]]]. exists t, c, nf. repeat split; try assumption.
+    apply kocc_surface in H4. destruct H4 as [f [Hf Hk]]. exists f. split; [| exact Hk].
+    apply surface_sorted_In. exact Hf.
+  - intros [t [c [nf [H1 [H2 [H3 [f [Hf Hk]]]]]]]]. exists t, c, nf. repeat split; try assumption.
+    apply kocc_surface. exists f. split; [| exact Hk]. apply surface_sorted_In. exact Hf.
+Qed.
+
+(* the face numbers are those of the tet table of _generate_all_faces: same
+   node set at the same position, numbers 1..4 *)
+Theorem C10_fistr_numbers_match :
   map (fun nf => (fst nf, sort_nat (snd nf))) tbl_fistr
   = combine (seq 1 4) (map sort_nat (table Tet)).
 Proof. exact fistr_numbers_match. Qed.
@@ -123,7 +135,9 @@ Definition ex_mesh : mesh :=
      m_blocks := [(Tet, [(5, [7; 19; 3; 40]); (2, [19; 7; 3; 88])]%Z)] |}.
 Example C10_hypotheses_satisfiable :
   wf_mesh ex_mesh = true /\ oriented_conforming ex_mesh = true
-  /\ length (all_faces ex_mesh) = 8 /\ length (surface_sorted ex_mesh) = 6.
+  /\ tets_only ex_mesh = true
+  /\ length (all_faces ex_mesh) = 8 /\ length (surface_sorted ex_mesh) = 6
+  /\ surface_fistr ex_mesh = [(5, 4); (2, 3); (5, 3); (2, 4); (5, 2); (2, 2)]%Z.
 Proof. vm_compute. repeat split. Qed.
 
 Print Assumptions C10_table_outward.
